@@ -1093,6 +1093,47 @@ def ring_views(m):
             'bond marks': sorted((min(n, k), max(n, k), bd.in_ring) for n, k, bd in m.bonds())}
 
 
+class _Abort(Exception):
+    """leaves a `with mol:` block so that the transaction is rolled back"""
+
+
+def transaction(m, rng, commit):
+    """a transaction `with m:` that edits the bond graph, READS the ring / component views inside the block (after the edit), and
+    is then committed or left by an exception (rolled back).  returns a description, or None when nothing could be edited"""
+    atoms = list(m._atoms)
+    bonds = [(n, k) for n, k, _ in m.bonds()]
+    free = [(a, c) for a, c in itertools.combinations(atoms, 2) if c not in m._bonds[a]]
+    kinds = (['delete_bond'] * 2 if bonds else []) + (['add_bond'] if free else []) + (['delete_atom'] if len(atoms) > 2 else [])
+    if not kinds:
+        return None
+    kind = rng.choice(kinds)
+    what = []
+    try:
+        with m:
+            if kind == 'delete_bond':
+                a, c = rng.choice(bonds)
+                m.delete_bond(a, c)
+                what.append(f'delete_bond({a}, {c})')
+            elif kind == 'add_bond':
+                a, c = rng.choice(free)
+                m.add_bond(a, c, 1)
+                what.append(f'add_bond({a}, {c}, 1)')
+            else:
+                a = rng.choice(atoms)
+                m.delete_atom(a)
+                what.append(f'delete_atom({a})')
+            # the views are read INSIDE the block: they describe the edited structure and are cached on the molecule
+            m.sssr, m.rings_count, m.atoms_rings, m.atoms_rings_sizes, m.connected_components, m.connected_components_count
+            what.append('read sssr / rings_count / atoms_rings / atoms_rings_sizes / connected_components inside the block')
+            if not commit:
+                raise _Abort()
+    except _Abort:
+        what.append('raise -> rolled back')
+    else:
+        what.append('committed')
+    return 'with mol: ' + '; '.join(what)
+
+
 def edit_search(ck, m0, tag, rng, stats):
     """the cached ring views after an edit through the public API == those of the same molecule built from scratch
     (state clause of the property: sssr / atoms_rings / rings_count / components are cached and must not survive an edit
@@ -1113,7 +1154,7 @@ def edit_search(ck, m0, tag, rng, stats):
         ops += ['add_bond', 'add_bond', 'add_special']
     if len(atoms) > 1:
         ops += ['delete_atom']
-    ops += ['add_atom+bonds', 'remap', 'copy-keep']
+    ops += ['add_atom+bonds', 'remap', 'copy-keep', 'tx-rollback', 'tx-rollback', 'tx-commit']
     op = rng.choice(ops)
     stats['edit:' + op] += 1
     what = op
@@ -1130,6 +1171,10 @@ def edit_search(ck, m0, tag, rng, stats):
             a = rng.choice(atoms)
             m.delete_atom(a)
             what = f'delete_atom({a})'
+        elif op in ('tx-rollback', 'tx-commit'):
+            what = transaction(m, rng, commit=(op == 'tx-commit'))
+            if what is None:
+                return
         elif op == 'add_atom+bonds':
             n = m.add_atom('C')
             nb = rng.sample(atoms, min(len(atoms), rng.choice([1, 2, 2, 3])))
@@ -1392,6 +1437,20 @@ def run(ck):
                 batch.add(*mol_cases(m, tag, fam))
                 sent.add(tag)
                 n_coq += 1
+                if nu > 0 and len(m) <= 45 and tx_budget[0] > 0 and not fam:
+                    # the SAME object after a rolled-back transaction that edited the bonds and read the ring views inside the
+                    # block goes through the verified checker and the correspondence (its caches must describe the restored graph)
+                    tx_budget[0] -= 1
+                    try:
+                        mt = m.copy()
+                        ring_views(mt)
+                        w = transaction(mt, trng, commit=False)
+                        if w is not None:
+                            batch.add(*mol_cases(mt, tag + ' | ' + w, fam, with_ref=False))
+                            sent.add(tag + ' | ' + w)
+                            ck.count('rolled-back transactions through Coq')
+                    except Exception as e:
+                        stats[f'transaction copy not sent to Coq ({type(e).__name__})'] += 1
                 if len(m) <= 70:
                     batch.add(*gen_cases(ck, m, tag, stats, fam))
                     fd, fc, reached = filter_cases(ck, m, tag)
@@ -1434,6 +1493,8 @@ def run(ck):
                     stats[f'not sent to Coq ({type(e).__name__})'] += 1
 
     erng = random.Random(f'{ck.seed}:c06:edits')
+    trng = random.Random(f'{ck.seed}:c06:transactions')
+    tx_budget = [150 if quick else 1500]
 
     # ---- exhaustive small graphs through the public API (add_atom / add_bond)
     for n in range(1, 7 if quick else 7):
